@@ -348,6 +348,9 @@ pub fn check_case(c: &LoopCase) -> Verdict {
         return Verdict::pass(false);
     }
     let o = run_loop(c);
+    if o.abandoned {
+        return Verdict::Inconclusive("runaway run (event budget)".into());
+    }
     // A planned panic that fired must reach the caller.
     let fired = o.logs.iter().flatten().any(|e| matches!(e.ev, Ev::Panic { .. }));
     match (&o.result, fired) {
